@@ -282,6 +282,9 @@ def assigns_item_keys(V, ast, pkg, key):
         if name == 'stream':
             from .externals import rd_keys
             return set(rd_keys())
+        if name == 'content':
+            from .externals import buf_key
+            return {buf_key(w)}
         if name == 'ghost':
             return {kk for kk in V.h0 if kk[0] == 'ghost' and kk[1] == args[0][1]}
         if name == 'cell':
